@@ -228,6 +228,25 @@ func parseTexts(trees []Tree, tier string) []string {
 			out = append(out, text[:i]+"\x00"+text[i:], text[:i]+"}"+text[i+1:], text[:i]+`"`+text[i:])
 		}
 	}
+	// every byte value: alone, in front of / behind a document (also after white space, doubled, as byte order marks),
+	// and substituted / inserted at every position of two short documents (a loop that inspects a byte without
+	// consuming it shows only for that byte)
+	point := `{"type":"Point","coordinates":[1,2]}`
+	feat := `{"type":"Feature","geometry":{"type":"Point","coordinates":[1,2]},"properties":{"a":"b"},"id":1}`
+	out = append(out, "\xef\xbb\xbf"+point, "\xef\xbb\xbf\xef\xbb\xbf"+point, " \xef\xbb\xbf"+point, point+"\xef\xbb\xbf", "\xef\xbb\xbf", "\xfe\xff"+point, "\xff\xfe"+point)
+	for b := 0; b < 256; b++ {
+		c := string([]byte{byte(b)})
+		out = append(out, c, c+c, c+point, c+c+point, " "+c+point, "\n\t"+c+" "+point, point+c, point+" "+c, c+feat)
+		for i := 0; i <= len(point); i++ {
+			out = append(out, point[:i]+c+point[i:])
+			if i < len(point) {
+				out = append(out, point[:i]+c+point[i+1:])
+			}
+		}
+		for i := (b % stride); i < len(feat); i += stride {
+			out = append(out, feat[:i]+c+feat[i+1:], feat[:i]+c+feat[i:])
+		}
+	}
 	out = append(out, lexTexts(os.Getenv("VERIF_LEXROWS"))...)
 	out = append(out, docTexts(os.Getenv("VERIF_DOCROWS"))...)
 	return out
